@@ -8,6 +8,7 @@ def parseScalar (j : Json) : R Scalar := do
   | "int" => return .int (← int j "n")
   | "num" => return .num (← int j "n") (← nat j "d")
   | "bool" => return .bool (← bool j "b")
+  | "nan" => return .nan
   | _ => return .str (← str j "s")
 
 def parseVal (j : Json) : R Val := do
